@@ -205,4 +205,15 @@ theorem generated_get_dispatch (name : String) (version : Nat) (flag : Bool) :
     · have : ((version : Int) == 0) = false := by simp; omega
       simp [hv, this]
 
+/-- T1, who the caller is: `getIdentity` looks at nothing of the request but the connection's
+peer address (and the request's context), passes exactly that address to WhoIs, and touches
+nothing of the server but the WhoIs function - no header is consulted, and no state about
+earlier callers is kept or read.  (The model's `identify` is a function of the peer address and
+the tailnet's answer about it.) -/
+theorem fact_identity_from_connection :
+    Facts.identityRequestFields = ["Context", "RemoteAddr"] ∧
+    Facts.identityServerFields = ["whois"] ∧
+    Facts.identityWhoisArgs = ["r.Context()", "r.RemoteAddr"] := by
+  decide
+
 end Setec.C08
